@@ -1,3 +1,5 @@
+import Pocket.Lemmas.KeysTag
+import Pocket.Lemmas.FromSourceConsts
 import Pocket.Lemmas.FindComplete
 import Pocket.Lemmas.FindNewest
 import Pocket.Thm.C06
@@ -212,5 +214,42 @@ example :
       { ids := [], authors := [[7]], kinds := [], tags := [], since := 0, «until» := 100, limit := 1 }
       false 0 0 0 (fun _ => .match)) = some [[2]] := by
   decide +kernel
+
+/-! ### the three tag tables, row by row (an event has one row per distinct `(letter, padded value)`) -/
+
+/-- a range read of the tag table with the bounds `tc_iter` computes = the model's scan: the live events having SOME tag
+named `letter` whose value pads (or is cut) to the same 182 bytes, in the time window, newest first then ascending id, each once -/
+theorem tag_index_scan (live : List SEv) (hw : ∀ x ∈ live, KeyWf x) (letter : Nat) (value : Bytes)
+    (since «until» : Nat) (hs : since ≤ U64MAX) (hu : «until» ≤ U64MAX) :
+    rowScan (tagRows live fun _ => []) (keyTc letter value «until» zeros32) (keyTc letter value since ffs32) =
+      tcScan live letter value since «until» := tc_rowScan live hw letter value since «until» hs hu
+
+theorem author_tag_index_scan (live : List SEv) (hw : ∀ x ∈ live, KeyWf x) (author : Bytes) (ha : author.length = 32) (letter : Nat)
+    (value : Bytes) (since «until» : Nat) (hs : since ≤ U64MAX) (hu : «until» ≤ U64MAX) :
+    rowScan (tagRows live fun e => e.pubkey) (keyAtc author letter value «until» zeros32) (keyAtc author letter value since ffs32) =
+      atcScan live author letter value since «until» := atc_rowScan live hw author ha letter value since «until» hs hu
+
+theorem kind_tag_index_scan (live : List SEv) (hw : ∀ x ∈ live, KeyWf x) (kind : Nat) (hk : kind < 65536) (letter : Nat)
+    (value : Bytes) (since «until» : Nat) (hs : since ≤ U64MAX) (hu : «until» ≤ U64MAX) :
+    rowScan (tagRows live fun e => be16 e.kind) (keyKtc kind letter value «until» zeros32) (keyKtc kind letter value since ffs32) =
+      ktcScan live kind letter value since «until» := ktc_rowScan live hw kind hk letter value since «until» hs hu
+
+/-- the rows of these theorems are the keys the driver dumps for the tag tables (`KYS`, compared with the real LMDB tables
+after every step of every history) -/
+theorem tag_rows_are_dumped_keys (live : List SEv) (k : Bytes) :
+    (k ∈ tableKeys live "tc" ↔ k ∈ (tagRows live fun _ => []).map (·.1)) ∧
+    (k ∈ tableKeys live "atc" ↔ k ∈ (tagRows live fun e => e.pubkey).map (·.1)) ∧
+    (k ∈ tableKeys live "ktc" ↔ k ∈ (tagRows live fun e => be16 e.kind).map (·.1)) :=
+  ⟨tableKeys_tc live k, tableKeys_atc live k, tableKeys_ktc live k⟩
+
+/-- a row read is not vacuous: two tags of one event falling on one key give one row, found once -/
+example : let x : SEv := ⟨8, ⟨List.replicate 32 1, List.replicate 32 2, [], 1, 5, [[[116], [97]], [[116], [97, 0]], [[116], [98]]], []⟩⟩
+    rowScan (tagRows [x] fun _ => []) (keyTc 116 [97] 9 zeros32) (keyTc 116 [97] 0 ffs32) = [x] := by
+  decide +kernel
+
+/-! ### tie to the source text: what /repo says now (translated on every run by `lib/srcfacts.py`) is what the model says -/
+
+/-- every `PADLEN` of the key builders in `lmdb/mod.rs` is the length the model pads (or cuts) tag values to -/
+theorem index_padding_from_source (v : Bytes) : ∀ p ∈ Src.c_lmdb_PADLEN, (pad182 v).length = p := Pocket.index_padding_from_source v
 
 end Pocket.C05
